@@ -171,7 +171,9 @@ func (e *Exec) loadAddr(fr *frame, st *State, a *Addr, pos token.Pos) Val {
 		}
 		return e.havocVal(st, t, a.Cell.Comment)
 	case aField:
-		return Val{T: sel(e.heapTerm(st, e.fieldHeap(a.Owner, a.Fld)), a.Ref), S: s, GoT: t}
+		e.accessCheck(fr, st, a, false, pos)
+		fname := typeShortName(a.Owner) + "." + a.Owner.Underlying().(*types.Struct).Field(a.Fld).Name()
+		return Val{T: sel(e.heapTerm(st, e.fieldHeap(a.Owner, a.Fld)), a.Ref), S: s, GoT: t, From: fname, FromOwner: a.Ref}
 	case aBox:
 		return Val{T: sel(e.heapTerm(st, e.boxHeap(t)), a.Ref), S: s, GoT: t}
 	case aElem:
@@ -199,6 +201,7 @@ func (e *Exec) storeAddr(fr *frame, st *State, a *Addr, v Val, pos token.Pos) {
 	v = e.termOf(st, v, t)
 	switch a.Kind {
 	case aField:
+		e.accessCheck(fr, st, a, true, pos)
 		h := e.fieldHeap(a.Owner, a.Fld)
 		e.frameCheck(fr, st, h, a.Ref, pos)
 		e.setHeap(st, h, sto(e.heapTerm(st, h), a.Ref, v.T))
@@ -226,8 +229,16 @@ func (e *Exec) storeAddr(fr *frame, st *State, a *Addr, v Val, pos token.Pos) {
 
 // havocAll forgets every heap (used for unmodelled effects).
 func (e *Exec) havocAll(st *State) {
+	lock, hasLock := st.heaps["G$lock"]
+	if _, known := e.heapInfos["G$lock"]; known && !hasLock {
+		lock, hasLock = e.heapTerm(st, "G$lock"), true
+	}
 	st.epoch = e.newEpoch()
 	st.heaps = map[string]string{}
+	if hasLock {
+		// which locks this goroutine holds is not changed by other code
+		st.heaps["G$lock"] = lock
+	}
 	for k := range st.cells {
 		if k.Heap {
 			delete(st.cells, k)
@@ -284,4 +295,39 @@ func (e *Exec) constGlobalVal(g *ssa.Global, t types.Type) Val {
 		e.trust("global " + g.Pkg.Pkg.Name() + "." + g.Name() + " is assigned only by its package initialiser (checked syntactically): its value is a constant")
 	}
 	return Val{T: name, S: s, GoT: t}
+}
+
+// accessCheck: lock-discipline obligations declared with `access` clauses of
+// the function being verified (for reads/writes of a struct field).
+func (e *Exec) accessCheck(fr *frame, st *State, a *Addr, write bool, pos token.Pos) {
+	if e.spec == nil || len(e.spec.Access) == 0 {
+		return
+	}
+	tname := typeShortName(a.Owner)
+	fname := a.Owner.Underlying().(*types.Struct).Field(a.Fld).Name()
+	e.accessRules(fr, st, tname, fname, a.Ref, write, pos)
+}
+
+func (e *Exec) accessRules(fr *frame, st *State, tname, fname, owner string, write bool, pos token.Pos) {
+	if e.spec == nil {
+		return
+	}
+	for _, r := range e.spec.Access {
+		if r.Type != tname || r.Field != fname || r.Write != write {
+			continue
+		}
+		env := e.specEnv(e.topFrame, st, nil)
+		for k, v := range e.topFrame.entryParams {
+			if _, isLocal := e.topFrame.locals[k]; !isLocal {
+				env.vars[k] = v
+			}
+		}
+		env.vars["owner"] = Val{T: owner, S: sInt}
+		v := env.eval(r.Cond)
+		mode := "read"
+		if write {
+			mode = "write"
+		}
+		e.oblige(fr, st, "lock:"+tname+"."+fname, mode+" of "+tname+"."+fname+" requires "+r.Src, pos, v.T)
+	}
 }
